@@ -65,6 +65,139 @@ Record case := {
   k_create : obs;
   k_steps : list step }.
 
+(** ** Decoder of the binary case format written by tools/py/props/c10.py (one byte-list literal
+    per case: elaborating records/lists of thousands of observations dominated the run time).
+      num    := u8 k, k bytes big-endian
+      case   := u8 raw, num chain, num trust, cstate, pool, u16 n * hdr, obs (creation, full), u16 n * step
+      pool   := u16 n * (u16 len, bytes)                 -- byte strings, referred to by index
+      hdr    := 11 * u16 pool refs (parent uncle coinbase root tx receipt bloom diff extra mix basefee),
+                num rev num gaslimit gasused time nonce, u16 pool ref (real hash), u8 seal verdict
+      cstate := num time rev num, u16 len, bytes root
+      step   := num bt, u16 header, u8 probe, obs
+      obs    := u8 class; for class 0 only (a refused update is observed on the unchanged state):
+                u16 head (65535 none), u8 rest_same, u16 other, and the store as a DELTA against the state the
+                step started from (the creation observation is a delta against the empty store):
+                u16 n * conskey removed, u16 n * consentry set, u16 n * u16 header-index entries removed,
+                u16 n * u16 added, u16 n * (u16, u16) root-main entries removed, u16 n * (u16, u16) added
+      conskey   := num rev, num height
+      consentry := conskey, u16 header | 65534 creation cstate | 65535 followed by cstate *)
+Definition P (A : Type) := bytes -> option (A * bytes).
+Definition pret {A} (a : A) : P A := fun b => Some (a, b).
+Definition pbind {A B} (p : P A) (f : A -> P B) : P B :=
+  fun b => match p b with Some (a, r) => f a r | None => None end.
+Notation "x <~ p ;; q" := (pbind p (fun x => q)) (at level 61, p at next level, right associativity).
+
+Fixpoint pnum (k : nat) (acc : N) : P N :=
+  match k with
+  | O => pret acc
+  | S k' => fun b => match b with x :: r => pnum k' (acc * 256 + Byte.to_N x) r | [] => None end
+  end.
+Definition u8 := pnum 1 0.
+Definition u16 := pnum 2 0.
+Definition pvar : P N := k <~ u8 ;; pnum (N.to_nat k) 0.
+Fixpoint ptake (k : nat) : P bytes :=
+  match k with
+  | O => pret []
+  | S k' => fun b => match b with x :: r => match ptake k' r with Some (l, r') => Some (x :: l, r') | None => None end | [] => None end
+  end.
+Fixpoint prep {A} (n : nat) (p : P A) : P (list A) :=
+  match n with
+  | O => pret []
+  | S n' => x <~ p ;; l <~ prep n' p ;; pret (x :: l)
+  end.
+Definition plist {A} (p : P A) : P (list A) := n <~ u16 ;; prep (N.to_nat n) p.
+Definition pbytes : P bytes := n <~ u16 ;; ptake (N.to_nat n).
+Definition pref (pool : list bytes) : P bytes := i <~ u16 ;; pret (nth (N.to_nat i) pool []).
+Definition pbool : P bool := x <~ u8 ;; pret (negb (x =? 0)).
+
+Definition pcstate : P cstate :=
+  t <~ pvar ;; r <~ pvar ;; n <~ pvar ;; root <~ pbytes ;; pret {| c_time := t; c_rev := r; c_num := n; c_root := root |}.
+
+Definition phdr (pool : list bytes) : P (header * (bytes * nat)) :=
+  parent <~ pref pool ;; uncle <~ pref pool ;; coinbase <~ pref pool ;; root <~ pref pool ;; tx <~ pref pool ;;
+  receipt <~ pref pool ;; bloom <~ pref pool ;; diff <~ pref pool ;; extra <~ pref pool ;; mix <~ pref pool ;;
+  basefee <~ pref pool ;;
+  rev <~ pvar ;; num <~ pvar ;; gaslimit <~ pvar ;; gasused <~ pvar ;; time <~ pvar ;; nonce <~ pvar ;;
+  hash <~ pref pool ;; seal <~ u8 ;;
+  pret ({| h_parent := parent; h_uncle := uncle; h_coinbase := coinbase; h_root := root; h_tx := tx; h_receipt := receipt;
+           h_bloom := bloom; h_diff := diff; h_rev := rev; h_num := num; h_gaslimit := gaslimit; h_gasused := gasused;
+           h_time := time; h_extra := extra; h_mix := mix; h_nonce := nonce; h_basefee := basefee |},
+        (hash, N.to_nat seal)).
+
+Definition hdr_at (t : table) (i : N) : option header :=
+  match nth_error t (N.to_nat i) with Some e => Some (fst e) | None => None end.
+
+Definition pckey : P ckey := r <~ pvar ;; n <~ pvar ;; pret (r, n).
+Definition pcons (t : table) (c0 : cstate) : P (ckey * cstate) :=
+  k <~ pckey ;; i <~ u16 ;;
+  if i =? 65535 then c <~ pcstate ;; pret (k, c)
+  else if i =? 65534 then pret (k, c0)
+  else pret (k, match hdr_at t i with Some h => cstate_of h
+                                   | None => {| c_time := 0; c_rev := 0; c_num := 0; c_root := [] |} end).
+Definition ppair : P (N * N) := a <~ u16 ;; b <~ u16 ;; pret (a, b).
+
+(** observation with header indices, before resolving them against the table *)
+Record iobs := { i_cons : list (ckey * cstate); i_idx : list N; i_rmain : list (N * N) }.
+Definition iempty : iobs := {| i_cons := []; i_idx := []; i_rmain := [] |}.
+Definition pair_eqb (a b : N * N) : bool := if fst a =? fst b then snd a =? snd b else false.
+Definition remove_all {A} (eqb : A -> A -> bool) (del l : list A) : list A :=
+  filter (fun x => negb (existsb (eqb x) del)) l.
+
+Definition resolve (t : table) (cl : nat) (hd : N) (rs : bool) (other : N) (i : iobs) : obs :=
+  {| o_class := cl; o_head := hdr_at t hd; o_rest_same := rs; o_cons := i_cons i;
+     o_idx := map (hdr_at t) (i_idx i);
+     o_rmain := map (fun ab => (hdr_at t (fst ab), hdr_at t (snd ab))) (i_rmain i);
+     o_other := N.to_nat other |}.
+
+(** [ref]: (head, rest_same, other, store) of the state the step started from.  Returns the
+    decoded observation and the same tuple for the observed state. *)
+Definition oref := (N * bool * N * iobs)%type.
+Definition pobs (t : table) (c0 : cstate) (ref : oref) : P (obs * oref) :=
+  cl <~ u8 ;;
+  if negb (cl =? 0) then
+    let '(hd, rs, other, i) := ref in pret (resolve t (N.to_nat cl) hd rs other i, ref)
+  else
+    hd <~ u16 ;; rs <~ pbool ;; other <~ u16 ;;
+    cdel <~ plist pckey ;; cadd <~ plist (pcons t c0) ;;
+    idel <~ plist u16 ;; iadd <~ plist u16 ;;
+    rdel <~ plist ppair ;; radd <~ plist ppair ;;
+    let i0 := snd ref in
+    let i := {| i_cons := filter (fun e => negb (existsb (ckey_eqb (fst e)) (cdel ++ map fst cadd))) (i_cons i0) ++ cadd;
+                i_idx := remove_all N.eqb idel (i_idx i0) ++ iadd;
+                i_rmain := remove_all pair_eqb rdel (i_rmain i0) ++ radd |} in
+    pret (resolve t 0 hd rs other i, (hd, rs, other, i)).
+
+Definition dummy_header : header :=
+  {| h_parent := []; h_uncle := []; h_coinbase := []; h_root := []; h_tx := []; h_receipt := []; h_bloom := []; h_diff := [];
+     h_rev := 0; h_num := 0; h_gaslimit := 0; h_gasused := 0; h_time := 0; h_extra := []; h_mix := []; h_nonce := 0; h_basefee := [] |}.
+
+(** steps thread the reference observation: a probe or a refused step leaves it unchanged *)
+Fixpoint psteps (n : nat) (t : table) (c0 : cstate) (ref : oref) : P (list step) :=
+  match n with
+  | O => pret []
+  | S n' =>
+      bt <~ pvar ;; hn <~ u16 ;; pr <~ pbool ;; r <~ pobs t c0 ref ;;
+      let st := {| s_bt := bt; s_hdr := match hdr_at t hn with Some h => h | None => dummy_header end;
+                   s_probe := pr; s_obs := fst r |} in
+      l <~ psteps n' t c0 (if pr then ref else snd r) ;;
+      pret (st :: l)
+  end.
+
+Definition pcase : P case :=
+  raw <~ pbool ;; chain <~ pvar ;; trust <~ pvar ;; c0 <~ pcstate ;;
+  pool <~ plist pbytes ;;
+  t <~ plist (phdr pool) ;;
+  cr <~ pobs t c0 (65535, false, 0, iempty) ;;
+  n <~ u16 ;;
+  steps <~ psteps (N.to_nat n) t c0 (snd cr) ;;
+  pret {| k_raw := raw; k_chain := chain; k_trust := trust;
+          k_genesis := match hdr_at t 0 with Some h => h | None => dummy_header end;
+          k_cons := c0; k_table := t; k_create := fst cr; k_steps := steps |}.
+
+(** a case that does not decode (or leaves bytes over) is reported as mismatch kind 15 *)
+Definition dec_case (b : bytes) : option case :=
+  match pcase b with Some (k, []) => Some k | _ => None end.
+
 Fixpoint number {A} (i : nat) (l : list A) : list (nat * A) :=
   match l with [] => [] | x :: l' => (i, x) :: number (S i) l' end.
 
@@ -100,9 +233,9 @@ Definition model_step (k : case) (bt : N) (s : state) (h : header) : outcome sta
 
 (** would the model consult the seal oracle for [h]? *)
 Definition seal_consulted (t : table) (bt : N) (s : state) (h : header) : bool :=
-  negb (chain_id s =? rinkeby) && validate_basic h
-  && match verify_header (t_hash t) bt s h with Ok _ => true | _ => false end
-  && negb (32 <? len (h_extra h)).
+  negb (chain_id s =? rinkeby) &&& validate_basic h
+  &&& match verify_header (t_hash t) bt s h with Ok _ => true | _ => false end
+  &&& negb (32 <? len (h_extra h)).
 
 (** Kinds: 1 class differs, 2 state after an accepted step differs, 3 state after creation
     differs, 12 the model consulted a seal verdict the harness did not tabulate, 13 a
@@ -116,7 +249,7 @@ Fixpoint cmp_steps (k : case) (i : nat) (s : state) (l : list step) : list (nat 
       match tlookup t h with
       | None => [(i, 13%nat)]
       | Some _ =>
-          if seal_consulted t (s_bt st) s h && negb (t_seal_known t h) then [(i, 12%nat)] else
+          if seal_consulted t (s_bt st) s h &&& negb (t_seal_known t h) then [(i, 12%nat)] else
           let r := model_step k (s_bt st) s h in
           if negb (Nat.eqb (oclass r) (o_class (s_obs st))) then [(i, 1%nat)]
           else match r with
@@ -136,8 +269,10 @@ Definition cmp_case (k : case) : list (nat * nat) :=
   else if negb (same_state (k_table k) (initial k) (k_create k)) then [(0%nat, 3%nat)]
   else cmp_steps k 1 (initial k) (k_steps k).
 
-Definition mismatches (ks : list case) : list (nat * (nat * nat)) :=
-  flat_map (fun ik => map (fun m => (fst ik, m)) (cmp_case (snd ik))) (number 0 ks).
+Definition mismatches (ks : list (nat * option case)) : list (nat * (nat * nat)) :=
+  flat_map (fun ik => match snd ik with
+                      | Some k => map (fun m => (fst ik, m)) (cmp_case k)
+                      | None => [(fst ik, (0%nat, 15%nat))] end) ks.
 
 (** * Monitors: the property evaluated on the IMPLEMENTATION's trace alone.  The observed
     store is turned back into a [state] value; only specification-level predicates of
@@ -229,8 +364,10 @@ Definition mon_case (k : case) : list (nat * nat) :=
       mon_steps k 1 s0 hyp0 (k_steps k)
   end.
 
-Definition monitor_failures (ks : list case) : list (nat * (nat * nat)) :=
-  flat_map (fun ik => map (fun m => (fst ik, m)) (mon_case (snd ik))) (number 0 ks).
+Definition monitor_failures (ks : list (nat * option case)) : list (nat * (nat * nat)) :=
+  flat_map (fun ik => match snd ik with
+                      | Some k => map (fun m => (fst ik, m)) (mon_case k)
+                      | None => [] end) ks.
 
 (** Sanity of the tabulated hash oracle (hypotheses [hash_len], [hash_num] of the theorems):
     every hash has 32 bytes, headers with different numbers have different hashes. *)
@@ -240,5 +377,12 @@ Definition oracle_ok (t : table) : bool :=
   && forallb (fun e1 => forallb (fun e2 => if h_num (fst e1) =? h_num (fst e2) then true
                                           else negb (beq (fst (snd e1)) (fst (snd e2)))) t) t.
 
-Definition oracle_failures (ks : list case) : list nat :=
-  flat_map (fun ik => if oracle_ok (k_table (snd ik)) then [] else [fst ik]) (number 0 ks).
+Definition oracle_failures (ks : list (nat * option case)) : list nat :=
+  flat_map (fun ik => match snd ik with
+                      | Some k => if oracle_ok (k_table k) then [] else [fst ik]
+                      | None => [] end) ks.
+
+(** One evaluation per file: decode once, then (mismatches, monitor failures, oracle failures). *)
+Definition report (qs : list bytes) :=
+  let ks := number 0 (map dec_case qs) in
+  (mismatches ks, monitor_failures ks, oracle_failures ks).
